@@ -223,7 +223,7 @@ func cmdCheck(args []string) int {
 	// native replays: witnesses (translator validation) and counterexamples
 	var rq []replayReq
 	for _, o := range outs {
-		if o.res != nil && o.res.Status == "ok" && len(o.res.Witness) > 0 && !o.job.NoReplay {
+		if o.res != nil && o.res.Status == "ok" && (len(o.res.Witness) > 0 || len(o.res.Observes) > 0) && !o.job.NoReplay {
 			rq = append(rq, replayReq{job: o.job, kind: "witness", model: o.res.Witness, strs: o.res.Strings, tries: 1, obs: o.res.Observes})
 		}
 	}
